@@ -40,7 +40,7 @@ def choices(names):
         for p in plist:
             for d in range(0, min(2, len(p)) + 1):
                 for s in ("", "_x", "_y"):
-                    for ds in ((), ("_a", "_b", "_c")):
+                    for ds in ((), ("_a",), ("_a", "_b"), ("_a", "_b", "_c")):
                         out.append(F(n, p, d, s, ds))
         for ts in ("", "_dbl"):
             out.append(F(n, ("T",), insts=[{"ty": "int", "sfx": ""}, {"ty": "double", "sfx": ts}]))
@@ -68,7 +68,7 @@ def admitted(fs):
             return False
         if f["ndef"] > 0 and f["sfx"]:
             return False
-        if f["dsfx"] and not (f["ndef"] == 2 and not f["sfx"]):
+        if f["dsfx"] and not (f["ndef"] >= 1 and len(f["dsfx"]) <= f["ndef"] + 1 and not f["sfx"]):
             return False
     for i, a in enumerate(fs):
         for j, b in enumerate(fs):
